@@ -3,6 +3,7 @@ package linux
 import (
 	"fmt"
 	"math/rand"
+	"strings"
 )
 
 // Gen generates semantic targets and device states for Linux.
@@ -226,7 +227,7 @@ func (g *Gen) Device(t *State, nedits int) (*State, []string) {
 	}
 	var ops []string
 	for k := 0; k < nedits; k++ {
-		switch g.Rng.Intn(12) {
+		switch g.Rng.Intn(14) {
 		case 0: // other next hop
 			if len(d.Routes) > 0 {
 				i := g.Rng.Intn(len(d.Routes))
@@ -299,6 +300,23 @@ func (g *Gen) Device(t *State, nedits int) (*State, []string) {
 					break
 				}
 			}
+		case 12, 13: // one value differs from the target's in one character only
+			if c := g.someChain(d); c != nil && len(c.Rules) > 0 {
+				r := &c.Rules[g.Rng.Intn(len(c.Rules))]
+				var cand []*string
+				for _, p := range []*string{&r.Src, &r.Dst, &r.Dport, &r.Sport} {
+					if *p != "" {
+						cand = append(cand, p)
+					}
+				}
+				if len(cand) > 0 {
+					p := cand[g.Rng.Intn(len(cand))]
+					if n := nearValue(g.Rng, *p); n != *p {
+						*p = n
+						ops = append(ops, "rule-near-value")
+					}
+				}
+			}
 		case 11: // extra chain / extra table
 			if g.Rng.Intn(2) == 0 {
 				d.Tables[0].Chains = append(d.Tables[0].Chains, &Chain{Name: "oldchain", Policy: "-",
@@ -322,4 +340,48 @@ func (g *Gen) someChain(s *State) *Chain {
 		return nil
 	}
 	return t.Chains[g.Rng.Intn(len(t.Chains))]
+}
+
+// nearValue returns a valid value that differs from v in its last
+// characters only: last number one digit longer, shorter or with another
+// final digit; prefix length of a net one or two bits longer.
+func nearValue(rng *rand.Rand, v string) string {
+	if i := strings.Index(v, "/"); i >= 0 { // a.b.c.0/24
+		return v[:i] + []string{"/25", "/26", "/28"}[rng.Intn(3)]
+	}
+	if i := strings.Index(v, ":"); i >= 0 { // lo:hi
+		var lo, hi int
+		fmt.Sscanf(v, "%d:%d", &lo, &hi)
+		nh := nearInt(rng, hi, 65535)
+		if lo == hi {
+			return fmt.Sprintf("%d:%d", nh, nh)
+		}
+		if nh < lo {
+			return v
+		}
+		return fmt.Sprintf("%d:%d", lo, nh)
+	}
+	i := strings.LastIndex(v, ".")
+	var n int
+	fmt.Sscanf(v[i+1:], "%d", &n)
+	return fmt.Sprintf("%s.%d", v[:i], nearInt(rng, n, 254))
+}
+
+func nearInt(rng *rand.Rand, n, max int) int {
+	var c []int
+	for d := 0; d < 10; d++ {
+		if x := n/10*10 + d; x != n && x >= 1 && x <= max {
+			c = append(c, x)
+		}
+		if x := n*10 + d; x <= max {
+			c = append(c, x)
+		}
+	}
+	if n >= 10 {
+		c = append(c, n/10)
+	}
+	if len(c) == 0 {
+		return n
+	}
+	return c[rng.Intn(len(c))]
 }
